@@ -3,12 +3,15 @@ import NTV.Driver.C19
 import NTV.Driver.C09
 import NTV.Driver.C02
 import NTV.Driver.C13
+import NTV.Driver.C04
+import NTV.Driver.C05
+import NTV.Driver.C10
 /-! Line-protocol driver. Input line: `op<TAB>arg…<TAB>=><TAB>implAnswer`.
 Output line: `modelAnswer<TAB>verdict`. -/
 open NTV.Parse
 
 def allOps : List (String × Handler) :=
-  NTV.Driver.C19.ops ++ NTV.Driver.C09.ops ++ NTV.Driver.C02.ops ++ NTV.Driver.C13.ops
+  NTV.Driver.C19.ops ++ NTV.Driver.C09.ops ++ NTV.Driver.C02.ops ++ NTV.Driver.C13.ops ++ NTV.Driver.C04.ops ++ NTV.Driver.C05.ops ++ NTV.Driver.C10.ops
 
 def handleLine (line : String) : String :=
   let fields := line.splitOn "\t"
